@@ -21,6 +21,7 @@ inside a //@fn or //@frag block (terminated by //@end):
   //@proof <block> <pos>       following lines are inserted into <block> at <pos>
         <block> ::= body | loop <n> | if <n> | else <n>
         <pos>   ::= at-start | at-end | before-stmt <k> | after-stmt <k> | before | after   (the last two: loops only)
+                  | before-matching <regex> | after-matching <regex>   (the one statement of the block that matches)
   (frag only)
   //@start <regex>             first line of the fragment (regex searched in the fn body)
   //@stop <regex>              last line of the fragment (searched after start)
@@ -639,6 +640,16 @@ def _splice_fn(text, d, where, body_off=None):
             off = toks[li].start if pos == "before" else toks[match_close(toks, blk)].end
             edits.append((off, "\n" + ptext + "\n", 0))
             continue
+        if pos in ("before-matching", "after-matching"):
+            # relative to the ONE statement of the block whose text matches the regex (robust against statements inserted elsewhere)
+            st = _statements(toks, blk)
+            hits = [(a, b) for (a, b) in st if re.search(k, text[toks[a].start:toks[b].end])]
+            if len(hits) != 1:
+                raise LostAnchor("%s: %s: %d statements match /%s/" % (where, blockspec, len(hits), k))
+            a, b = hits[0]
+            off = toks[a].start if pos == "before-matching" else toks[b].end
+            edits.append((off, "\n" + ptext + "\n", 0))
+            continue
         if pos == "at-start":
             off = toks[blk].end
         elif pos == "at-end":
@@ -941,10 +952,14 @@ def assemble(template_path, repo):
                     mm = re.match(r"(\d+)(?:\s+iter=(\w+))?$", arg)
                     cur = ("loop", int(mm.group(1)), mm.group(2))
                 elif key == "proof":
-                    mm = re.match(r"(body|loop \d+|if \d+|else \d+)\s+(at-start|at-end|before-stmt|after-stmt|before|after)(?:\s+(\d+))?$", arg)
-                    if not mm:
-                        raise Unsupported("bad //@proof %r" % arg)
-                    cur = ("proof", mm.group(1), mm.group(2), int(mm.group(3) or 0))
+                    mx = re.match(r"(body|loop \d+|if \d+|else \d+)\s+(before-matching|after-matching)\s+(.+)$", arg)
+                    if mx:
+                        cur = ("proof", mx.group(1), mx.group(2), mx.group(3).strip())
+                    else:
+                        mm = re.match(r"(body|loop \d+|if \d+|else \d+)\s+(at-start|at-end|before-stmt|after-stmt|before|after)(?:\s+(\d+))?$", arg)
+                        if not mm:
+                            raise Unsupported("bad //@proof %r" % arg)
+                        cur = ("proof", mm.group(1), mm.group(2), int(mm.group(3) or 0))
                 elif key in ("wrap", "pre", "post"):
                     cur = (key,)
                 elif key == "start":
